@@ -19,6 +19,8 @@
 //!   t <label> <ctx> <hex>     template source: add_template + render against context zoo entry
 //!   e <label> <ctx> <hex>     expression source: compile_expression + eval
 //!   d <construct> <n>         depth probe: nesting depth n of one recursive syntactic construct
+//!   c <family> <api> <ctx> <spec>  composition of constructs (see c01_compose.inc): load through one of seven
+//!                             API paths, undeclared_variables(true/false), render
 //!   f <p|s> <args> <hex>      format string (printf / str.format style) through
 //!                             `minijinja::formatting::format` with one of six argument sets
 //! Results: `ok:…`, `err:<ErrorKind>`, `panic:<file>:<msg>`, `signal:<n>`, `timeout`.
@@ -241,6 +243,11 @@ fn ctx_zoo(which: usize) -> Value {
 }
 
 fn companions() -> Vec<(String, String)> {
+    static COMPANIONS: std::sync::OnceLock<Vec<(String, String)>> = std::sync::OnceLock::new();
+    COMPANIONS.get_or_init(read_companions).clone()
+}
+
+fn read_companions() -> Vec<(String, String)> {
     let mut v = vec![
         ("layout.html".to_string(), "<t>{% block title %}default{% endblock %}</t>{% block body %}[{{ x }}]{% endblock %}".to_string()),
         ("template.html".to_string(), "{% block title %}T{% endblock %}{% block content %}C{{ super }}{% endblock %}".to_string()),
@@ -261,10 +268,9 @@ fn companions() -> Vec<(String, String)> {
     v
 }
 
-fn make_env(fuel: Option<u64>) -> Environment<'static> {
+fn build_env() -> Environment<'static> {
     let mut env = Environment::new();
     env.set_debug(true);
-    env.set_fuel(fuel);
     for (n, s) in companions() {
         let _ = env.add_template_owned(n, s);
     }
@@ -275,15 +281,33 @@ fn make_env(fuel: Option<u64>) -> Environment<'static> {
     env
 }
 
+thread_local! {
+    /// the environment every case starts from, built once per worker thread (the companions are compiled
+    /// once, a case works on its own clone: nothing a case does to its environment reaches the next case)
+    static BASE_ENV: std::cell::OnceCell<Environment<'static>> = const { std::cell::OnceCell::new() };
+    static WIDE_ENV: std::cell::OnceCell<Environment<'static>> = const { std::cell::OnceCell::new() };
+}
+
+fn make_env(fuel: Option<u64>) -> Environment<'static> {
+    let mut env = BASE_ENV.with(|b| b.get_or_init(build_env).clone());
+    env.set_fuel(fuel);
+    env
+}
+
 /// `make_env` plus 300 identity filters `wf0…` and 300 tests `wt0…` (width probes need more distinct
 /// *existing* filter / test names than the builtins offer)
 fn make_wide_env() -> Environment<'static> {
-    let mut env = make_env(None);
-    for i in 0..300 {
-        env.add_filter(format!("wf{}", i), |v: Value| v);
-        env.add_test(format!("wt{}", i), |_v: Value| true);
-    }
-    env
+    WIDE_ENV.with(|b| {
+        b.get_or_init(|| {
+            let mut env = make_env(None);
+            for i in 0..300 {
+                env.add_filter(format!("wf{}", i), |v: Value| v);
+                env.add_test(format!("wt{}", i), |_v: Value| true);
+            }
+            env
+        })
+        .clone()
+    })
 }
 
 fn wide_name(prefix: &str, i: usize) -> String {
@@ -1149,7 +1173,29 @@ pub const DEPTH_KINDS: &[&str] = &[
     "listitems", "mapitems", "args", "strlit", "cmpchain",
 ];
 
+/// stack of the thread an accumulate-loop probe runs on.  A wrapper that nests once per round costs
+/// 100–250 bytes of native stack per level when the value is iterated or dropped; on a stack this small a
+/// few thousand rounds decide between "nesting is bounded" and "nesting grows with the loop" — no need
+/// for round counts that overflow the default stacks (and for the quadratic copying they bring).
+fn acc_stack_bytes() -> usize {
+    std::env::var("C01_ACC_STACK").ok().and_then(|s| s.parse().ok()).unwrap_or(ACC_STACK_KIB) * 1024
+}
+const ACC_STACK_KIB: usize = 256;
+
 fn run_depth(kind: &str, n: usize) -> String {
+    if kind.starts_with("acc:") && std::thread::current().name() != Some("acc-probe") {
+        // build, iterate and drop the accumulated value on a small stack of its own
+        let (kind, res) = (kind.to_string(), std::sync::Arc::new(Mutex::new(String::new())));
+        let res2 = res.clone();
+        let h = std::thread::Builder::new().name("acc-probe".into()).stack_size(acc_stack_bytes()).spawn(move || {
+            let r = run_depth(&kind, n);
+            *res2.lock().unwrap() = r;
+        });
+        return match h.map(|h| h.join()) {
+            Ok(Ok(())) => res.lock().unwrap().clone(),
+            _ => "panic:acc-probe thread".into(),
+        };
+    }
     let (src, is_tmpl) = depth_source(kind, n);
     if src.is_empty() {
         return "bad-case".into();
@@ -1223,9 +1269,12 @@ fn run_case(case: &str) -> String {
             Err(_) => "bad-utf8".into(),
         },
         "d" if f.len() == 3 => run_depth(f[1], f[2].parse().unwrap_or(0)),
+        "c" if f.len() == 5 => run_compose(f[1], f[2].parse().unwrap_or(0), f[3].parse().unwrap_or(0), f[4]),
         _ => "bad-case".into(),
     }
 }
+
+include!("c01_compose.inc");
 
 // ------------------------------------------------------------------------------------ operand stack
 /// One token of the stack-relevant alphabet (`MJ/Model/Stk.lean: Instr`) per instruction.  The
@@ -1400,6 +1449,15 @@ fn dump_streams(thorough: bool) {
             if let Ok(s) = String::from_utf8(unhex(f[3])) {
                 sources.push((c.clone(), format!("{{{{ {} }}}}", s)));
             }
+        } else if f[0] == "c" && f.len() == 5 {
+            // depth >= 2: one (before, after) variant per structure is enough for the operand stack
+            let deep = f[4].split('|').next().map_or(0, |p| p.split('.').count()) > 2;
+            if deep && !f[4].ends_with("|none|var") {
+                continue;
+            }
+            if let Some((s, is_e)) = compose_source(f[1], f[4]) {
+                sources.push((c.clone(), if is_e { format!("{{{{ {} }}}}", s) } else { s }));
+            }
         } else if f[0] == "d" && f.len() == 3 {
             let ns: &[usize] = if f[1].starts_with("stk") { &[2] } else if f[1].starts_with("w:") { &[60] } else if f[1].starts_with("acc:") { &[3] } else { &[3, 40] };
             if f[1].starts_with("w:") && f[2] != "50" {
@@ -1470,9 +1528,10 @@ fn worker_loop() {
             Some(x) => x,
             None => continue,
         };
+        let t0 = std::time::Instant::now();
         let r = run_case(case);
         let mut o = stdout.lock();
-        let _ = writeln!(o, "{}\t{}", idx, r);
+        let _ = writeln!(o, "{}\t{}\t{}", idx, r, t0.elapsed().as_micros());
         let _ = o.flush();
     }
 }
@@ -1530,7 +1589,12 @@ fn run_worker(mode: &str, cases: &[(usize, String)], timeout: Duration) -> (Vec<
             Ok(l) => {
                 if let Some((i, r)) = l.split_once('\t') {
                     let i: usize = i.parse().unwrap_or(usize::MAX);
+                    // `result <TAB> microseconds`
+                    let (r, us) = r.rsplit_once('\t').unwrap_or((r, "0"));
                     if i == cases[done.len()].0 {
+                        if times_wanted() {
+                            eprintln!("T\t{}\t{}\t{}", mode, us, cases[done.len()].1);
+                        }
                         done.push((i, r.to_string()));
                     }
                 }
@@ -1561,11 +1625,17 @@ fn run_worker(mode: &str, cases: &[(usize, String)], timeout: Duration) -> (Vec<
     (done, death)
 }
 
+fn times_wanted() -> bool {
+    static W: std::sync::OnceLock<bool> = std::sync::OnceLock::new();
+    *W.get_or_init(|| std::env::var("C01_TIMES").is_ok())
+}
+
 fn run_shard(mode: &str, cases: &[(usize, String)], timeout: Duration) -> Vec<(usize, String)> {
     let mut results = Vec::with_capacity(cases.len());
     let mut pos = 0;
     while pos < cases.len() {
         let (done, death) = run_worker(mode, &cases[pos..], timeout);
+        let done_here = done.len();
         pos += done.len();
         results.extend(done);
         if let Some(sig) = death {
@@ -1573,6 +1643,9 @@ fn run_shard(mode: &str, cases: &[(usize, String)], timeout: Duration) -> Vec<(u
                 let culprit = cases[pos].clone();
                 let res = if sig == "timeout" {
                     "timeout".to_string()
+                } else if done_here == 0 {
+                    // the first case of a fresh worker: it already ran alone
+                    sig
                 } else {
                     // confirm: the same case alone in a fresh worker
                     let (d2, death2) = run_worker(mode, std::slice::from_ref(&culprit), timeout);
@@ -1590,27 +1663,71 @@ fn run_shard(mode: &str, cases: &[(usize, String)], timeout: Duration) -> Vec<(u
     results
 }
 
+/// cases whose cost is far above the average (seconds instead of microseconds): scheduled first, alone
+fn is_heavy(case: &str) -> bool {
+    case.starts_with("d ") || case.starts_with("t namespace:cycle") || case.starts_with("k slicef") || case.starts_with("k mulstr") || case.starts_with("k mergedepth")
+        || case.starts_with("k fmtw") || case.starts_with("k lexcol") || case.starts_with("k nest")
+}
+
+/// modes a case runs in: the accumulate-loop probes bring their own (small) stack, one mode is enough
+fn modes_of<'a>(case: &str, modes: &[&'a str]) -> Vec<&'a str> {
+    if case.starts_with("d acc:") {
+        modes.iter().take(1).cloned().collect()
+    } else if case.starts_with("t namespace:cycle2 ") {
+        // the recorded cyclic-namespace recursion (known finding) takes ~10 s to exhaust an 8 MiB stack:
+        // the variants through a list / map run on the 2 MiB thread only
+        modes.iter().rev().take(1).cloned().collect()
+    } else {
+        modes.to_vec()
+    }
+}
+
+/// All cases in all modes through a pool of worker slots (`C01_SHARDS`, default = number of CPUs, at most
+/// 16): a shared queue of chunks — the heavy cases first, one per chunk, then the cheap ones in chunks of a
+/// few hundred — so that no slot idles while another one still has a long tail.  Every chunk runs in a
+/// fresh worker process (re-spawned after a crash, see `run_shard`).  The output order is the case order,
+/// independent of the scheduling.
 fn run_all(cases: Vec<String>, modes: &[&str], timeout: Duration) {
     let indexed: Vec<(usize, String)> = cases.into_iter().enumerate().collect();
-    let nshard = std::env::var("C01_SHARDS").ok().and_then(|s| s.parse().ok()).unwrap_or(7usize).max(1);
-    let mut handles = vec![];
-    for mode in modes {
-        // depth probes and kernels that allocate go to their own shards (interleaved assignment)
-        for sh in 0..nshard {
-            let mine: Vec<(usize, String)> = indexed.iter().filter(|(i, _)| i % nshard == sh).cloned().collect();
-            let mode = mode.to_string();
-            handles.push(std::thread::spawn(move || {
-                let r = run_shard(&mode, &mine, timeout);
-                (mode, r)
-            }));
+    let ncpu = std::thread::available_parallelism().map(|n| n.get()).unwrap_or(8);
+    let nslots = std::env::var("C01_SHARDS").ok().and_then(|s| s.parse().ok()).unwrap_or(ncpu.min(16)).max(1);
+    let mut queue: std::collections::VecDeque<(String, Vec<(usize, String)>)> = std::collections::VecDeque::new();
+    for (i, c) in indexed.iter().filter(|(_, c)| is_heavy(c)) {
+        for mode in modes_of(c, modes) {
+            queue.push_back((mode.to_string(), vec![(*i, c.clone())]));
         }
+    }
+    let light: Vec<&(usize, String)> = indexed.iter().filter(|(_, c)| !is_heavy(c)).collect();
+    // strided chunks: neighbours in generation order (same builtin, same seed) land in different chunks
+    let nchunks = (light.len() / 1500).max(nslots * 3).min(light.len().max(1));
+    for j in 0..nchunks {
+        let part: Vec<(usize, String)> = light.iter().skip(j).step_by(nchunks).map(|x| (*x).clone()).collect();
+        if part.is_empty() {
+            continue;
+        }
+        for mode in modes {
+            queue.push_back((mode.to_string(), part.clone()));
+        }
+    }
+    let queue = std::sync::Arc::new(Mutex::new(queue));
+    let mut handles = vec![];
+    for _ in 0..nslots {
+        let queue = queue.clone();
+        handles.push(std::thread::spawn(move || {
+            let mut mine: Vec<(usize, String, String)> = vec![];
+            loop {
+                let job = queue.lock().unwrap().pop_front();
+                let Some((mode, part)) = job else { break };
+                for (i, res) in run_shard(&mode, &part, timeout) {
+                    mine.push((i, mode.clone(), res));
+                }
+            }
+            mine
+        }));
     }
     let mut all: Vec<(usize, String, String)> = vec![];
     for h in handles {
-        let (mode, r) = h.join().unwrap();
-        for (i, res) in r {
-            all.push((i, mode.clone(), res));
-        }
+        all.extend(h.join().unwrap());
     }
     all.sort();
     let out = std::io::stdout();
@@ -1806,7 +1923,7 @@ fn gen_builtin_cases(out: &mut Vec<String>, rng: &mut Rng, thorough: bool) {
     for (i, body) in ["{{ ns }}", "{{ ns.v }}", "{{ ns|items|list }}", "{{ ns|tojson }}", "{{ ns == ns }}", "{{ ns|string|length }}", "{{ ns.v.v.v is defined }}", "{% for k in ns %}{{ k }}{% endfor %}", ""].iter().enumerate() {
         for how in ["ns", "[ns]", "{'k': ns}"] {
             let src = format!("{{% set ns = namespace() %}}{{% set ns.v = {} %}}{}", how, body);
-            out.push(format!("t namespace:cycle {} {}", i % 2, hex(src.as_bytes())));
+            out.push(format!("t namespace:cycle{} {} {}", if how == "ns" || thorough { "" } else { "2" }, i % 2, hex(src.as_bytes())));
         }
     }
     // macros, caller, varargs/kwargs, super/self, method-call syntax on plain values, call on non-callables
@@ -2409,7 +2526,8 @@ fn gen_cases(thorough: bool) -> Vec<String> {
     // (4d) accumulate-loop probes: every value-building operator / filter that can wrap its own previous
     // result x operand order x kind of the other operand x sized / unsized accumulator
     {
-        let rounds = if thorough { 100_000 } else { 10_000 };
+        // the probes run on a 256 KiB stack (`run_depth`): a wrapper per round overflows it after 1000–2000 rounds
+        let rounds = if thorough { 10_000 } else { 4_000 };
         for op in ["add", "chain"] {
             for order in ["first", "last", "mid"] {
                 for other in ["list", "range", "tuple", "lazy", "fresh", "str"] {
@@ -2449,6 +2567,11 @@ fn gen_cases(thorough: bool) -> Vec<String> {
     }
     // (1) kernels
     gen_kernel_cases(&mut cases, thorough);
+    // (1b) construct compositions (loading through every API path, undeclared_variables, render)
+    {
+        let mut crng = Rng::new(spread ^ 0xC0_4D05E);
+        gen_compose_cases(&mut cases, &mut crng, thorough);
+    }
     // (2) builtins, format strings
     gen_builtin_cases(&mut cases, &mut rng, thorough);
     gen_format_cases(&mut cases, &mut rng, thorough);
@@ -2505,6 +2628,18 @@ fn main() {
             install_hook();
             dump_streams(args.get(2).map(|s| s == "thorough").unwrap_or(false));
         }
+        Some("why") => {
+            // the error message of a `t` / `c` case (debugging aid)
+            let case = args[2..].join(" ");
+            let f: Vec<&str> = case.split(' ').collect();
+            let (src, which) = if f[0] == "c" { (compose_source(f[1], f[4]).map(|x| x.0).unwrap_or_default(), f[3].parse().unwrap_or(0)) } else { (String::from_utf8_lossy(&unhex(f[3])).to_string(), f[2].parse().unwrap_or(0)) };
+            let env = make_env(None);
+            println!("{}", src);
+            match env.render_named_str("case.txt", &src, ctx_zoo(which)) {
+                Ok(s) => println!("OK {}", s),
+                Err(e) => println!("ERR {}", e),
+            }
+        }
         Some("constants") => {
             println!("{:?}", width_constants());
         }
@@ -2519,6 +2654,8 @@ fn main() {
             let f: Vec<&str> = case.split(' ').collect();
             if (f[0] == "t" || f[0] == "e") && f.len() == 4 {
                 println!("{}", String::from_utf8_lossy(&unhex(f[3])));
+            } else if f[0] == "c" && f.len() == 5 {
+                println!("{}", compose_source(f[1], f[4]).map(|x| x.0).unwrap_or_default());
             } else if f[0] == "d" && f.len() == 3 {
                 let (s, _) = depth_source(f[1], f[2].parse().unwrap_or(0).min(5));
                 println!("(n capped to 5) {}", s);
